@@ -100,6 +100,9 @@ func histPool() []poolCall {
 		{fn: FnMergePatch, a: `null`, b: `{"x":1}`},
 		{fn: FnMergePatch, a: `[1]`, b: `{"x":{"a":1,"a":null}}`},
 		{fn: FnMergePatch, a: d1, b: `{`},
+		// literal patches (a scalar, null) written with white space around them
+		{fn: FnMergePatch, a: d1, b: "  7 "},
+		{fn: FnMergeMergePatches, a: `{"a":1}`, b: " \n null"},
 		{fn: FnMergeMergePatches, a: `{"a":{"b":null}}`, b: `{"a":{"c":null},"d":[null]}`},
 		{fn: FnCreateMergePatch, a: d1, b: d0},
 		{fn: FnCreateMergePatch, a: `{"a":[[1],2],"k":{"z":1,"y":2}}`, b: `{"a":[3,2],"k":{"y":2}}`},
